@@ -105,6 +105,8 @@ func classify(q string) (class string, mut bool) {
 		return "replmon_create", true
 	case strings.HasPrefix(up, "INSERT INTO") && strings.Contains(q, "CURRENT_TIMESTAMP(3)"):
 		return "replmon_update", true
+	case strings.HasPrefix(q, "SELECT Seconds_Behind_Master FROM mysync_verif.lag"):
+		return "custom_lag", false
 	case strings.HasPrefix(q, "SELECT channel_name AS ChannelName"), strings.HasPrefix(q, "SELECT source_host AS SourceHost"):
 		return "ext_repl_settings", false
 	}
@@ -513,6 +515,15 @@ func (w *World) apply(m *myconn, s *Server, c *StmtCtx, id int64) *result {
 			s.ReplMonTS = float64(time.Now().UnixMilli()) / 1000
 		}
 		return &result{}
+	case "custom_lag":
+		// a configured lag query (e.g. a heartbeat table): answers even while replication is broken
+		if s.Source == "" {
+			return rs([]string{"Seconds_Behind_Master"})
+		}
+		if s.Lag != nil {
+			return rs([]string{"Seconds_Behind_Master"}, []any{*s.Lag})
+		}
+		return rs([]string{"Seconds_Behind_Master"}, []any{0})
 	case "ext_repl_settings":
 		return &result{errno: 1146, msg: "Table 'mysql.replication_settings' doesn't exist"}
 	}
